@@ -514,9 +514,71 @@ func withoutPackagers(f func()) {
 	f()
 }
 
+// parseVia: how the expansion cases get their document parsed (default: from a reader)
+var parseVia = parseClass
+
+// parseFromFileWithSourcesBesideIt: the document read with ParseFile from a directory that is not the working directory
+// and that holds, beside the configuration file, a file at every relative source path the configuration names (after
+// expansion): where a document comes from and what lies next to it changes nothing about its values
+func parseFromFileWithSourcesBesideIt(doc string, env map[string]string) (string, *nfpm.Config) {
+	_, ref := parseClass(doc, env)
+	dir, err := os.MkdirTemp("", "verif-c16-beside-")
+	must(err)
+	defer os.RemoveAll(dir)
+	cfgdir := filepath.Join(dir, "project", "packaging")
+	must(os.MkdirAll(cfgdir, 0o755))
+	if ref != nil {
+		var srcs []string
+		for _, c := range ref.Contents {
+			srcs = append(srcs, c.Source)
+		}
+		for _, o := range ref.Overrides {
+			if o != nil {
+				for _, c := range o.Contents {
+					srcs = append(srcs, c.Source)
+				}
+			}
+		}
+		for _, sp := range srcs {
+			sp = strings.TrimSpace(sp)
+			if sp == "" || filepath.IsAbs(sp) || strings.ContainsAny(sp, "*?[{$~") || strings.HasPrefix(sp, "..") {
+				continue
+			}
+			p := filepath.Join(cfgdir, sp)
+			if os.MkdirAll(filepath.Dir(p), 0o755) == nil {
+				os.WriteFile(p, []byte("beside the configuration file\n"), 0o644)
+			}
+		}
+	}
+	path := filepath.Join(cfgdir, "nfpm.yaml")
+	must(os.WriteFile(path, []byte(doc), 0o644))
+	var cfg nfpm.Config
+	func() {
+		defer func() {
+			if r := recover(); r != nil {
+				err = fmt.Errorf("panic: %v", r)
+			}
+		}()
+		cfg, err = nfpm.ParseFileWithEnvMapping(path, func(k string) string { return env[k] })
+	}()
+	switch {
+	case err == nil:
+		return "ok", &cfg
+	case strings.HasPrefix(err.Error(), "panic"):
+		return "panic", nil
+	case strings.Contains(err.Error(), "not found in type"):
+		return "unknownkey", nil
+	default:
+		return "other", nil
+	}
+}
+
 // what a document expands to does not depend on which packagers happen to be registered while it is parsed
 func emitExpandCase(w *caseWriter, id string, doc string, env map[string]string, st *cfgStats) {
 	first := emitExpandCaseWith(w, id, doc, env, st, func(f func()) { f() }, "")
+	parseVia = parseFromFileWithSourcesBesideIt
+	emitExpandCaseWith(w, id+"-from-a-file-with-the-sources-beside-it", doc, env, st, func(f func()) { f() }, first)
+	parseVia = parseClass
 	withoutPackagers(func() {
 		emitExpandCaseWith(w, id+"-parsed-with-no-packager-registered", doc, env, st, func(f func()) { f() }, first)
 	})
@@ -529,7 +591,7 @@ func emitExpandCaseWith(w *caseWriter, id string, doc string, env map[string]str
 	if err := yaml.Unmarshal([]byte(doc), &raw); err != nil {
 		return ""
 	}
-	cls, cfg := parseClass(doc, env)
+	cls, cfg := parseVia(doc, env)
 	outcome := cls
 	if cfg != nil {
 		l := map[string]string{}
